@@ -15,12 +15,12 @@ package core
 // baton, and the baton hand-offs are deliberately hidden from the race
 // detector (see sim/simpool).
 type Tape struct {
-	replay bool
-	src    []int
-	pos    int
-	s      uint64
-	Rec    []int
-	limit  int // max draws (0 = unlimited); exceeding sets Overrun
+	replay  bool
+	src     []int
+	pos     int
+	s       uint64
+	Rec     []int
+	limit   int // max draws (0 = unlimited); exceeding sets Overrun
 	Overrun bool
 }
 
